@@ -1,6 +1,7 @@
 package checks
 
 import (
+	"github.com/deepteams/webp/animation"
 	"bytes"
 	"encoding/binary"
 	"fmt"
@@ -327,6 +328,28 @@ func c04One(c *ev.Ctx, cs ev.Case, feat *featAgg) {
 			c.Violate(cs, "rgba-differs-from-reference", map[string]string{"kind": cc.Kind, "what": what}, fmt.Sprintf("%s [%s]", firstPixelDiff(got, want, w), sig), rep())
 		}
 		_ = h
+		// the animation reader decodes the caller's own bytes (no private copy): twice from the same slice, both
+		// results are the reference's (an in-place un-filter of the chunk bytes would show in the second)
+		for pass := 1; pass <= 2; pass++ {
+			an, e := animation.DecodeBytes(file)
+			if e != nil {
+				c.Violate(cs, "valid-stream-rejected", map[string]string{"kind": cc.Kind, "entry": "animation-reader"}, fmt.Sprintf("pass %d: animation.DecodeBytes: %v [%s]", pass, e, sig), rep())
+				break
+			}
+			if pass == 2 {
+				e = an.DecodeFramesParallel()
+			} else {
+				e = an.DecodeFrames()
+			}
+			if e != nil || len(an.Frames) != 1 || an.Frames[0].Image == nil {
+				c.Violate(cs, "valid-stream-rejected", map[string]string{"kind": cc.Kind, "entry": "animation-reader"}, fmt.Sprintf("pass %d: DecodeFrames: %v, %d frames [%s]", pass, e, len(an.Frames), sig), rep())
+				break
+			}
+			if got := img.Tight(toNRGBA(an.Frames[0].Image)); !bytes.Equal(got, want) {
+				c.Violate(cs, "rgba-differs-from-reference", map[string]string{"kind": cc.Kind, "entry": "animation-reader", "pass": fmt.Sprint(pass)}, fmt.Sprintf("frame read through animation.DecodeBytes from the same slice, pass %d: %s [%s]", pass, firstPixelDiff(got, want, w), sig), rep())
+				break
+			}
+		}
 	}
 	if cs.Idx%1200 == 0 {
 		c.Sample(map[string]any{"kind": cc.Kind, "sig": sig, "w": ly.W, "h": ly.H, "bytes": len(file)})
